@@ -257,7 +257,7 @@ Inductive aop :=
 | OpIterAppend (cs : list chunk)
 | OpTruncate (idx : option Z)
 | OpSetItem (w : option (list (Z * list Z)))
-| OpSetMode (m : mode)
+| OpSetMode (m : option mode)      (* None: an invalid mode string *)
 | OpReopen (m : mode)
 | OpMetaSet | OpMetaClear
 | OpMetaPop.    (* metadata.pop / popitem / del of the only key *)
@@ -270,7 +270,8 @@ Definition exec (w : world) (o : aop) : opres :=
   | OpIterAppend cs => iterappend h d cs
   | OpTruncate i => truncate h d i
   | OpSetItem x => setitem h d x
-  | OpSetMode m => (Ok tt, mkHandle m (h_nt h) (h_bo h) (h_shape h), [])
+  | OpSetMode (Some m) => (Ok tt, mkHandle m (h_nt h) (h_bo h) (h_shape h), [])
+  | OpSetMode None => (Err ValueError, h, [])       (* refused before anything is stored *)
   | OpReopen m => match open_dir d m with Ok h' => (Ok tt, h', []) | Err e => (Err e, h, []) end
   | OpMetaSet => meta_set h d
   | OpMetaClear => meta_clear h d
